@@ -598,6 +598,10 @@ func (te *TEnv) call(x ECall) TV {
 			sfail("typeis: unknown type %s", name.V)
 		}
 		return TV{T(SBool, "(= (itag %s) %d)", t.S, v.eng.tags.tag(gt)), nil}
+	case "isPlainErr":
+		// an error made by errors.New / fmt.Errorf / pkg/errors (no richer dynamic type)
+		t := te.term(arg(0))
+		return TV{T(SBool, "(= (itag %s) %d)", t.S, v.eng.tags.tagName("plain-error")), nil}
 	case "unbox":
 		// unbox(i, "T"): the T stored in interface value i
 		t := te.term(arg(0))
